@@ -4,6 +4,7 @@ C07 — Deleting an index range deletes exactly those reducible atoms.
 Property theorems only; helper lemmas are in LithiumProofs/Rmslice.lean.
 -/
 import LithiumProofs.Rmslice
+import LithiumProofs.Alias
 
 namespace Testcase
 
@@ -51,3 +52,39 @@ example :
   decide
 
 end Testcase
+
+namespace Alias
+
+/-- "A copy is independent", for every history: start from one loaded testcase and apply ANY sequence of
+`copy()`, `rmslice(a, b)` and in-place edits of an object's lists (`tc.reducible[i] = v`, `tc.parts[i] = v`) to
+any of the objects that exist by then.  Whatever the next operation is, every object other than the one it is
+applied to holds exactly the parts and flags it held before — and `copy()` leaves also the object it copies
+unchanged.  (Heap model `Alias`: objects hold references to list objects; the invariant is that no two objects
+ever share a list, `Alias.Inv`.) -/
+theorem C07_copy_independent (parts : List Bytes) (flags : List Bool) (ops : List Op) (op : Op) (j : Nat)
+    (hj : j < (run (init parts flags) ops).objs.length) (hne : j ≠ target op ∨ ∃ o, op = .copy o) :
+    view (step (run (init parts flags) ops) op) j = view (run (init parts flags) ops) j :=
+  step_others _ op (run_inv _ ops (inv_init parts flags)) j hj hne
+
+/-- the copy looks like the original at the moment it is made -/
+theorem C07_copy_equal (h : Heap) (o : Nat) (ob : Obj) (ho : h.objs[o]? = some ob) :
+    view (step h (.copy o)) h.objs.length = view h o :=
+  copy_view h o ob ho
+
+/-- and `rmslice` on an object is the pure function that `C07_rmslice_spec` speaks about -/
+theorem C07_rmslice_on_object (h : Heap) (o : Nat) (a b : Option Int) (ps : List Bytes) (fs : List Bool) (t' : Testcase)
+    (hv : view h o = some (ps, fs))
+    (hr : ({ before := [], parts := ps, reducible := fs, after := [] } : Testcase).rmslice? a b = some t') :
+    view (step h (.rmslice o a b)) o = some (t'.parts, t'.reducible) :=
+  rmslice_view h o a b ps fs t' hv hr
+
+/-- non-vacuity: copy, delete from the copy, flip a flag of the copy in place, copy the copy, delete from the
+original: three objects, all different, the first still complete but for its own deletion -/
+example :
+    let h := run (init [[0x61], [0x62], [0x63]] [true, true, true])
+      [.copy 0, .rmslice 1 (some 0) (some 1), .setFlag 1 0 false, .copy 1, .rmslice 0 (some 2) none]
+    (view h 0, view h 1, view h 2) =
+      (some ([[0x61], [0x62]], [true, true]), some ([[0x62], [0x63]], [false, true]), some ([[0x62], [0x63]], [false, true])) := by
+  rfl
+
+end Alias
